@@ -101,6 +101,10 @@ type HintBuffer struct {
 type hintSplit struct {
 	buf  *HintBuffer
 	file *hintFileIndex
+	// dumping is set (under the chunk lock) by the goroutine that dumps this split: the chunk lock is
+	// released during the dump, and the periodic dumper, a write that rotates splits, GC and close
+	// may all want to dump the same split
+	dumping bool
 }
 
 func NewHintBuffer() *HintBuffer {
@@ -111,7 +115,7 @@ func NewHintBuffer() *HintBuffer {
 }
 
 func newhintSplit() *hintSplit {
-	return &hintSplit{NewHintBuffer(), nil}
+	return &hintSplit{buf: NewHintBuffer()}
 }
 
 func (h *HintBuffer) SetMaxOffset(offset uint32) {
@@ -208,7 +212,7 @@ func (h *HintBuffer) Dump(path string) (index *hintFileIndex, err error) {
 }
 
 func (h *hintSplit) needDump() bool {
-	return h.file == nil && h.buf.num > 0
+	return h.file == nil && !h.dumping && h.buf != nil && h.buf.num > 0
 }
 
 type hintChunk struct {
@@ -354,6 +358,7 @@ func (by byKeyHash) Less(i, j int) bool {
 func (h *hintMgr) dump(chunkID, splitID int) (err error) {
 	ck := h.chunks[chunkID]
 	sp := ck.splits[splitID]
+	sp.dumping = true
 
 	ck.Unlock()
 	defer ck.Lock()
